@@ -389,3 +389,13 @@ def replay(case, seed):
     if 'identifier_bytes' in case or 'format' in case:
         return run_unit({'kind': 'hexdb'}, 'quick', seed)['violations']
     return run_unit({'kind': 'xor'}, 'quick', seed)['violations']
+
+# a subset of the units is executed again in other environments (child interpreters): see core.run_variants
+ENV_VARIANTS = [{'name': 'python-O', 'flags': ['-O']}, {'name': 'locale-C', 'env': {'LC_ALL': 'C', 'LANG': 'C', 'PYTHONUTF8': '0', 'PYTHONCOERCECLOCALE': '0'}}]
+
+def variant_units(tier, seed, name):
+    us = units(tier, seed)
+    if name == 'locale-C':
+        return [u for u in us if u[1].get('kind') == 'hexdb']
+    return [u for u in us if u[1].get('kind') in ('split', 'splitlong', 'hexdb', 'xor', 'ints')] + [u for u in us if u[1].get('kind') == 'blocks'][:4]
+
